@@ -759,6 +759,15 @@ def gen_ops(tier, rng):
             items += [m, enc_iv(*iv_of(b, ts[i], ts[i + 1]))]
         items += items[:2]                # the first score once more, after the others
         yield "prob.sequence", "pdseq %s %s" % (enc_ds(D), " ".join(items))
+        # a threshold and a quantile level that are the same number (0.5 mm and the median): P(X <= 0.5) and the
+        # 0.5-quantile are different fields of the same Data object
+        if D.get("qnt") and D.get("thr"):
+            lvl = D["qnt"][0][0]
+            D2 = dict(D, thr=[(lvl, D["thr"][0][1])] + [(t, c) for t, c in D["thr"][1:] if t > lvl + 1e-3])
+            q_item = ["quantilescore", enc_iv(lvl, lvl, True, True)]
+            t_item = [rng.choice(THRESHOLD_FAMILY), enc_iv(*iv_of(rng.choice(BINS[:4]), lvl, lvl))]
+            seq = (q_item + t_item) if rng.random() < 0.5 else (t_item + q_item)
+            yield "prob.sequence", "pdseq %s %s" % (enc_ds(D2), " ".join(seq + seq[:2]))
     # ---- PIT statistics and pinball loss on vectors
     for _ in range(80 if quick else 2000):
         L = rng.choice([1, 2, 3, 5, 10, 30])
